@@ -17,6 +17,7 @@ Record ltm : Type := mkltm {
 }.
 
 Record ledger : Type := mkledger {
+  g_dead : list Z;                     (* objects whose descriptor was closed underneath them (script operation) *)
   g_objs : list (Z * lobj);
   g_tmrs : list (Z * ltm);
   g_posts : list Z;
@@ -27,14 +28,14 @@ Record ledger : Type := mkledger {
   g_fired : bool                       (* some callback ran during the current operation *)
 }.
 
-Definition ledger_init : ledger := mkledger [] [] [] 0 0 None [] false.
+Definition ledger_init : ledger := mkledger [] [] [] [] 0 0 None [] false.
 
 Definition gobj (g : ledger) (i : Z) : lobj := match lookup i (g_objs g) with Some o => o | None => mklobj None None false end.
 Definition gtm (g : ledger) (i : Z) : ltm := match lookup i (g_tmrs g) with Some t => t | None => mkltm None false false end.
 Definition set_gobj (g : ledger) (i : Z) (o : lobj) : ledger :=
-  mkledger (update i o (g_objs g)) (g_tmrs g) (g_posts g) (g_now g) (g_forced g) (g_cancel g) (g_unowned g) (g_fired g).
+  mkledger (g_dead g) (update i o (g_objs g)) (g_tmrs g) (g_posts g) (g_now g) (g_forced g) (g_cancel g) (g_unowned g) (g_fired g).
 Definition set_gtm (g : ledger) (i : Z) (t : ltm) : ledger :=
-  mkledger (g_objs g) (update i t (g_tmrs g)) (g_posts g) (g_now g) (g_forced g) (g_cancel g) (g_unowned g) (g_fired g).
+  mkledger (g_dead g) (g_objs g) (update i t (g_tmrs g)) (g_posts g) (g_now g) (g_forced g) (g_cancel g) (g_unowned g) (g_fired g).
 
 Definition cb_of (x : option (Z * bool * Z)) : option Z := match x with Some (c, _, _) => Some c | None => None end.
 Definition is_cb (x : option (Z * bool * Z)) (cb : Z) : bool := match x with Some (c, _, _) => c =? cb | None => false end.
@@ -66,7 +67,7 @@ Definition inflight_count (g : ledger) : Z :=
    descriptor the batch reported ready was not dispatched (never completes)   10 timer fired before its delay elapsed
    11 scheduling while scheduled did not fail / disturbed the schedule   12 a closed timer was revived
    13 a legal schedule was refused   14 callback nesting deeper than MaxCallbackDispatch + 1   15 Dispatched not back to
-   its base value   17 scheduling from inside the callback of a live repeating timer did not fail   16 an expired timer in the batch did not fire   21 Pending() differs from the operations in flight
+   its base value   18 an armed timer is 30 ms overdue after a poll and has not fired   17 scheduling from inside the callback of a live repeating timer did not fail   16 an expired timer in the batch did not fire   21 Pending() differs from the operations in flight
    22 PollOne dispatched handlers but reported 0   23 PollOne reported 0 without the timeout error
    30 posted handlers ran out of order   31 a queued post was not run by the poll that drained the waker *)
 Definition fail (g : ledger) (c : nat) : ledger * nat := (g, c).
@@ -80,8 +81,10 @@ Definition ledger_event (g : ledger) (e : lev) : ledger * nat :=
       if lo_closed lo || (match (if w then lo_wr lo else lo_rd lo) with Some _ => true | None => false end) then (g, 99%nat) else
       (set_gobj g o (if w then mklobj (lo_rd lo) (Some (cb, all, len)) (lo_closed lo) else mklobj (Some (cb, all, len)) (lo_wr lo) (lo_closed lo)), 0%nat)
   | LCb cb err n d =>
-      let g := mkledger (g_objs g) (g_tmrs g) (g_posts g) (g_now g) (g_forced g) (g_cancel g) (g_unowned g) true in
-      if d >? sonic_MaxCallbackDispatch + 1 + g_forced g then fail g 14%nat
+      let g := mkledger (g_dead g) (g_objs g) (g_tmrs g) (g_posts g) (g_now g) (g_forced g) (g_cancel g) (g_unowned g) true in
+      (* the bound is about inline completions re-issued from their own callbacks; a callback that Cancel invokes from
+         inside a handler is one more frame on the stack and is not counted against it: no judgement while a Cancel is open *)
+      if (d >? sonic_MaxCallbackDispatch + 1 + g_forced g) && (match g_cancel g with None => true | Some _ => false end) then fail g 14%nat
       else
       match find_op (g_objs g) cb with
       | Some (o, w) =>
@@ -90,10 +93,12 @@ Definition ledger_event (g : ledger) (e : lev) : ledger * nat :=
           let g1 := set_gobj g o (if w then mklobj (lo_rd lo) None (lo_closed lo) else mklobj None (lo_wr lo) (lo_closed lo)) in
           let bad_all := match op with Some (_, true, len) => (err =? 0) && (0 <=? len) && negb (n =? len) | _ => false end in
           let cancel_ok := match g_cancel g with
-                           | Some (co, must) => if (co =? o) && existsb (Z.eqb cb) must then err =? xCancelled else true
+                           | Some (co, must) =>
+                               (* on a descriptor closed underneath the poller's own error is passed on instead *)
+                               if (co =? o) && existsb (Z.eqb cb) must then (err =? xCancelled) || existsb (Z.eqb o) (g_dead g) else true
                            | None => true end in
           let g2 := match g_cancel g1 with
-                    | Some (co, must) => mkledger (g_objs g1) (g_tmrs g1) (g_posts g1) (g_now g1) (g_forced g1)
+                    | Some (co, must) => mkledger (g_dead g1) (g_objs g1) (g_tmrs g1) (g_posts g1) (g_now g1) (g_forced g1)
                                            (Some (co, if co =? o then remove_first cb must else must)) (g_unowned g1) true
                     | None => g1 end in
           if bad_all then fail g2 2%nat else if negb cancel_ok then fail g2 4%nat else (g2, 0%nat)
@@ -109,19 +114,19 @@ Definition ledger_event (g : ledger) (e : lev) : ledger * nat :=
               end
           | None =>
               match g_posts g with
-              | p :: rest => if p =? cb then (mkledger (g_objs g) (g_tmrs g) rest (g_now g) (g_forced g) (g_cancel g) (g_unowned g) true, 0%nat)
+              | p :: rest => if p =? cb then (mkledger (g_dead g) (g_objs g) (g_tmrs g) rest (g_now g) (g_forced g) (g_cancel g) (g_unowned g) true, 0%nat)
                              else if existsb (Z.eqb cb) rest then fail g 30%nat
-                             else (mkledger (g_objs g) (g_tmrs g) (g_posts g) (g_now g) (g_forced g) (g_cancel g) (cb :: g_unowned g) true, 0%nat)
-              | [] => (mkledger (g_objs g) (g_tmrs g) (g_posts g) (g_now g) (g_forced g) (g_cancel g) (cb :: g_unowned g) true, 0%nat)
+                             else (mkledger (g_dead g) (g_objs g) (g_tmrs g) (g_posts g) (g_now g) (g_forced g) (g_cancel g) (cb :: g_unowned g) true, 0%nat)
+              | [] => (mkledger (g_dead g) (g_objs g) (g_tmrs g) (g_posts g) (g_now g) (g_forced g) (g_cancel g) (cb :: g_unowned g) true, 0%nat)
               end
           end
       end
   | LCancel o false =>
       let lo := gobj g o in
       let must := (match cb_of (lo_rd lo) with Some c => [c] | None => [] end) ++ (match cb_of (lo_wr lo) with Some c => [c] | None => [] end) in
-      (mkledger (g_objs g) (g_tmrs g) (g_posts g) (g_now g) (g_forced g) (Some (o, must)) (g_unowned g) (g_fired g), 0%nat)
+      (mkledger (g_dead g) (g_objs g) (g_tmrs g) (g_posts g) (g_now g) (g_forced g) (Some (o, must)) (g_unowned g) (g_fired g), 0%nat)
   | LCancel o true =>
-      let g1 := mkledger (g_objs g) (g_tmrs g) (g_posts g) (g_now g) (g_forced g) None (g_unowned g) (g_fired g) in
+      let g1 := mkledger (g_dead g) (g_objs g) (g_tmrs g) (g_posts g) (g_now g) (g_forced g) None (g_unowned g) (g_fired g) in
       match g_cancel g with
       | Some (_, []) => (g1, 0%nat)
       | Some (_, _ :: _) => fail g1 4%nat
@@ -146,13 +151,13 @@ Definition ledger_event (g : ledger) (e : lev) : ledger * nat :=
                else if ms <=? 0 then
                  (* immediate callback: it must have been seen just before *)
                  (if existsb (Z.eqb cb) (g_unowned g)
-                  then (mkledger (g_objs g) (g_tmrs g) (g_posts g) (g_now g) (g_forced g) (g_cancel g) (remove_first cb (g_unowned g)) (g_fired g), 0%nat)
+                  then (mkledger (g_dead g) (g_objs g) (g_tmrs g) (g_posts g) (g_now g) (g_forced g) (g_cancel g) (remove_first cb (g_unowned g)) (g_fired g), 0%nat)
                   else fail g 16%nat)
                else (set_gtm g t (mkltm (Some (cb, g_now g + ms, if rep then ms else 0)) false false), 0%nat)
            end
   | LTCancel t err => let lt := gtm g t in (set_gtm g t (mkltm None (lt_closed lt) false), 0%nat)
   | LTClose t err => (set_gtm g t (mkltm None true false), 0%nat)
-  | LPost cb => (mkledger (g_objs g) (g_tmrs g) (g_posts g ++ [cb]) (g_now g) (g_forced g) (g_cancel g) (g_unowned g) (g_fired g), 0%nat)
+  | LPost cb => (mkledger (g_dead g) (g_objs g) (g_tmrs g) (g_posts g ++ [cb]) (g_now g) (g_forced g) (g_cancel g) (g_unowned g) (g_fired g), 0%nat)
   end.
 
 Fixpoint ledger_events (g : ledger) (evs : list lev) : ledger * nat :=
@@ -205,10 +210,11 @@ Definition unmet (evs : list lev) (ob : Z * Z * Z) : bool :=
   negb (existsb (Z.eqb cb) (fired_cbs evs)) && negb (existsb (touches kind i) evs).
 
 Definition ledger_step (g : ledger) (o : lop) (evs : list lev) (pending disp ret_n ret_err : Z) : ledger * nat :=
-  let g0 := mkledger (g_objs g) (g_tmrs g) (g_posts g) (g_now g) (g_forced g) None [] false in
+  let g0 := mkledger (g_dead g) (g_objs g) (g_tmrs g) (g_posts g) (g_now g) (g_forced g) None [] false in
   let g0 := match o with
-            | LSleep ms => mkledger (g_objs g0) (g_tmrs g0) (g_posts g0) (g_now g0 + ms) (g_forced g0) None [] false
-            | LDepth n => mkledger (g_objs g0) (g_tmrs g0) (g_posts g0) (g_now g0) n None [] false
+            | LSleep ms => mkledger (g_dead g0) (g_objs g0) (g_tmrs g0) (g_posts g0) (g_now g0 + ms) (g_forced g0) None [] false
+            | LDepth n => mkledger (g_dead g0) (g_objs g0) (g_tmrs g0) (g_posts g0) (g_now g0) n None [] false
+            | LPeer i PKill => mkledger (i :: g_dead g0) (g_objs g0) (g_tmrs g0) (g_posts g0) (g_now g0) (g_forced g0) None [] false
             | _ => g0 end in
   let obligations := match o with LPoll batch => must_complete g0 batch | _ => [] end in
   let '(g1, c) := ledger_events g0 evs in
@@ -218,15 +224,24 @@ Definition ledger_step (g : ledger) (o : lop) (evs : list lev) (pending disp ret
   soft (
   if negb (match g_unowned g1 with [] => true | _ => false end) then (g1, 1%nat)
   else if negb (disp =? g_forced g1) then (g1, 15%nat)
-  else if negb (pending =? inflight_count g1) then (g1, 21%nat)
-  else match o with
+  else
+  (* 21 is reported but does not stop the judgement of the step (nor, in the driver, of the script): the other clauses do not
+     depend on the implementation's counter *)
+  let c21 := if negb (pending =? inflight_count g1) then 21%nat else 0%nat in
+  (fun r : ledger * nat => if (snd r =? 0)%nat then (fst r, c21) else r)
+  (match o with
        | LPoll batch =>
            match filter (unmet evs) obligations with
            | (kind, _, _) :: _ => (g1, if kind =? 2 then 31%nat else if kind =? 1 then 16%nat else 5%nat)
            | [] =>
+               (* 18: a timer armed long enough ago (30 ms of script time past its expiry) that is still armed after this poll
+                  did not fire although the loop was polled: its callback is lost *)
+               if existsb (fun p => match lt_armed (snd p) with Some (_, due, _) => due + 30 <=? g_now g1 | None => false end) (g_tmrs g1)
+               then (g1, 18%nat)
+               else
                if g_fired g1 && (ret_n <=? 0) then (g1, 22%nat)
                else if (ret_n =? 0) && negb (ret_err =? xTimeout) then (g1, 23%nat)
                else (g1, 0%nat)
            end
        | _ => (g1, 0%nat)
-       end).
+       end)).
